@@ -17,6 +17,8 @@
 /* Forward declaration from column_writer.c */
 typedef struct carquet_column_writer_internal carquet_column_writer_internal_t;
 
+extern void carquet_column_writer_set_unsigned_order(carquet_column_writer_internal_t* writer, bool enabled);
+
 extern carquet_column_writer_internal_t* carquet_column_writer_create(
     carquet_physical_type_t type,
     carquet_encoding_t encoding,
@@ -136,6 +138,17 @@ void carquet_row_group_writer_destroy(carquet_row_group_writer_t* writer) {
  * Column Management
  * ============================================================================
  */
+
+/* Statistics of the column follow the unsigned order (INTEGER(.., false)) */
+void carquet_row_group_writer_set_unsigned_order(
+    carquet_row_group_writer_t* writer,
+    int column_index,
+    bool enabled) {
+
+    if (writer && column_index >= 0 && column_index < writer->num_columns) {
+        carquet_column_writer_set_unsigned_order(writer->column_writers[column_index], enabled);
+    }
+}
 
 carquet_status_t carquet_row_group_writer_add_column(
     carquet_row_group_writer_t* writer,
